@@ -509,7 +509,8 @@ def r08_7(ctx):
               and kw.get("return_type") == "get_value_type_by_c_type(return_type)",
               "RZILTransformer(arch, sub_routines=self.sub_routines, parameters=params, return_type=ret_type)", str(kw), w)
     stores = [(U(e.node), U(e.extra)) for e in p.events if e.kind == "store"]
-    ctx.check("routine transformer shares the caller's macro table", any(t.endswith(".macros") and v2 == "self.transformer.macros" for t, v2 in stores), "transformer.macros = self.transformer.macros", str(stores)[:120], w)
+    ctx.check("routine transformer shares the caller's macro table", any(t.endswith(".macros") and v2 == "self.transformer.macros" for t, v2 in stores) or kw.get("macros") == "self.transformer.macros",
+              "transformer.macros = self.transformer.macros (or handed to the constructor)", str(stores)[:120], w)
     ad = idx.func("Compiler.add_sub_routine")
     evs = [U(n) for n in ast.walk(ad.node) if isinstance(n, (ast.Assign, ast.Expr))]
     ok = any(e.startswith("self.sub_routines[name] = sub_routine") for e in evs) and any("self.transformer.update_sub_routines(self.sub_routines)" in e for e in evs) and any("self.compile_sub_routine(name, ret_type, params, body)" in e for e in evs)
